@@ -237,6 +237,9 @@ func (c *Client) ConsensusParams(ctx context.Context, height *int64) (*ctypes.Re
 	if res.BlockHeight <= 0 {
 		return nil, errNegOrZeroHeight
 	}
+	if height != nil && res.BlockHeight != *height {
+		return nil, fmt.Errorf("consensus params are for height %d, requested %d", res.BlockHeight, *height)
+	}
 
 	// Update the light client if we're behind.
 	l, err := c.updateLightClientIfNeededTo(ctx, &res.BlockHeight)
@@ -316,6 +319,9 @@ func (c *Client) Block(ctx context.Context, height *int64) (*ctypes.ResultBlock,
 	if err := c.verifyBlock(ctx, res); err != nil {
 		return nil, err
 	}
+	if height != nil && res.Block.Height != *height {
+		return nil, fmt.Errorf("block is for height %d, requested %d", res.Block.Height, *height)
+	}
 
 	return res, nil
 }
@@ -329,6 +335,9 @@ func (c *Client) BlockByHash(ctx context.Context, hash []byte) (*ctypes.ResultBl
 
 	if err := c.verifyBlock(ctx, res); err != nil {
 		return nil, err
+	}
+	if !bytes.Equal(res.BlockID.Hash, hash) {
+		return nil, fmt.Errorf("block has hash %X, requested %X", res.BlockID.Hash, hash)
 	}
 
 	return res, nil
@@ -392,6 +401,9 @@ func (c *Client) BlockResults(ctx context.Context, height *int64) (*ctypes.Resul
 	// Validate res.
 	if res.Height <= 0 {
 		return nil, errNegOrZeroHeight
+	}
+	if res.Height != h {
+		return nil, fmt.Errorf("block results are for height %d, requested %d", res.Height, h)
 	}
 
 	// Update the light client if we're behind.
